@@ -29,6 +29,7 @@ PROP = "C02"
 ENGINE = "tb"
 USES_TRANSLATOR = True
 LEAN_TARGETS = ["H5V.Props.C02"]
+LEANCHECKER = True
 AUDIT_IMPORTS = ["H5V.Props.C02"]
 _TABLE_THEOREMS = [
     "C02_table_special", "C02_table_default_scope", "C02_table_list_item_scope", "C02_table_button_scope",
@@ -42,8 +43,10 @@ _TABLE_THEOREMS = [
     "C02_model_special", "C02_model_default_scope", "C02_model_list_item_scope", "C02_model_button_scope",
     "C02_model_html_sets", "C02_model_thorough_implied_end", "C02_model_integration_points", "C02_model_minus_sets",
     "C02_model_tables"]
-_SPEC_THEOREMS = []   # filled below when lean/H5V/Props/C02.lean carries them (kept in one list: SPEC_THEOREM_NAMES)
-SPEC_THEOREM_NAMES = []
+SPEC_THEOREM_NAMES = [
+    "C02_spec_quirks_mode", "C02_spec_in_scope", "C02_spec_implied_end_tags", "C02_spec_reset_insertion_mode",
+    "C02_spec_dispatcher", "C02_spec_adjust_attributes", "C02_spec_svg_tag_name_and_breakout",
+    "C02_spec_adoption_outer_loop"]
 THEOREMS = ["H5V.Props.C02." + t for t in _TABLE_THEOREMS + SPEC_THEOREM_NAMES]
 
 TRUSTED = [
